@@ -23,9 +23,14 @@ def fresh : Cache :=
 def size (c : Cache) : Nat := c.sync.length
 def isIgnore (c : Cache) (a : Nat) : Bool := c.sync.rd a == UInt8.ofNat Gen.SHADOW_IGNORE
 def isCached (c : Cache) (a : Nat) : Bool := c.sync.rd a == UInt8.ofNat Gen.SHADOW_CACHED
-/-- `memcpy(shadow_registers + reg, data, n); memset(sync + reg, SHADOW_CACHED, n)` -/
-def store (c : Cache) (reg : Nat) (data : List UInt8) : Cache :=
-  { vals := c.vals.wrs reg data, sync := c.sync.fill reg data.length (UInt8.ofNat Gen.SHADOW_CACHED) }
+/-- `sx127x_shadow_store`: remember the transferred bytes register by register; never-cache
+    registers inside the range stay untouched -/
+def store (c : Cache) (reg : Nat) : List UInt8 → Cache
+  | [] => c
+  | v :: vs =>
+    let c' := if c.isIgnore reg then c
+              else { vals := c.vals.wr reg v, sync := c.sync.wr reg (UInt8.ofNat Gen.SHADOW_CACHED) }
+    store c' (reg + 1) vs
 /-- the page invalidation added to `sx127x_shadow_spi_write_register` for `reg == REGOPMODE` -/
 def dropPage (c : Cache) : Cache :=
   let drop (s : Mem) (i : Nat) : Mem :=
@@ -159,8 +164,6 @@ def swrite (cached : Bool) (w : World) (reg : Nat) (data : List UInt8) : Step Un
   | .error c => .ok (.error c) w
   | .ok () =>
     let w := if reg = Gen.REGOPMODE then { w with cache := w.cache.dropPage } else w
-    if reg ≥ w.cache.size then .ub .oobShadow else
-    if w.cache.isIgnore reg then .ok (.ok ()) w else
     if reg + data.length > w.cache.size then .ub .oobShadow else
     .ok (.ok ()) { w with cache := w.cache.store reg data }
 
@@ -171,8 +174,7 @@ def bwrite (cached : Bool) (w : World) (reg : Nat) (data : List UInt8) : Step Un
   match r with
   | .error c => .ok (.error c) w
   | .ok () =>
-    if reg ≥ w.cache.size then .ub .oobShadow else
-    if w.cache.isIgnore reg then .ok (.ok ()) w else
+    if reg = Gen.REGFIFO then .ok (.ok ()) w else
     if reg + data.length > w.cache.size then .ub .oobShadow else
     .ok (.ok ()) { w with cache := w.cache.store reg data }
 end Shadow
